@@ -55,6 +55,13 @@ def main(argv=None):
             print("now: obligation not found on the current tree")
             return 2
         return 0
+    if a.cmd == "baseline" and a.prop == "functions":
+        from .loader import Package
+        pkg = Package(a.root)
+        p = report.VERIF / "baseline" / "functions.json"
+        p.write_text(json.dumps(sorted(pkg.functions), indent=0))
+        print("wrote", p, len(pkg.functions), "functions (helpers not listed here are looked through by engine A)")
+        return 0
     if a.cmd == "baseline":
         code, ctx, lines = report.run_property(a.prop, "quick", root=a.root, write=False, quiet=True)
         keys = sorted(o.key for o in ctx.obs.values() if not o.soft)
